@@ -29,6 +29,7 @@ import (
 	"github.com/google/gopacket/layers"
 	"github.com/insomniacslk/dhcp/dhcpv4"
 	"github.com/insomniacslk/dhcp/dhcpv6"
+	"github.com/insomniacslk/dhcp/iana"
 	"golang.org/x/net/ipv4"
 	"golang.org/x/net/ipv6"
 )
@@ -144,6 +145,9 @@ func datagram4(in in4, r *rand.Rand) ([]byte, net.IP) {
 	d.ClientIPAddr = classIP4(in.ci, r, 2)
 	d.ClientHWAddr = make(net.HardwareAddr, in.hlen)
 	r.Read(d.ClientHWAddr)
+	// hardware types other than Ethernet (IEEE 802 = 6, ARCNET = 7, EUI-64 = 27, InfiniBand = 32, 0): echoed, and no rule of the
+	// destination table depends on them
+	d.HWType = iana.HWType([]uint16{1, 1, 6, 1, 27, 32, 0, 7}[r.Intn(8)])
 	if r.Intn(2) == 0 {
 		d.ServerHostName = "srv" + strconv.Itoa(r.Intn(100))
 	}
@@ -670,6 +674,10 @@ func datagram6(in in6, r *rand.Rand) ([]byte, []layer6) {
 			l.hasIID = true
 			rm.AddOption(dhcpv6.OptInterfaceID(l.iid))
 		}
+		if r.Intn(4) == 0 {
+			// RFC 8357 Relay Source Port (the port of the DOWNSTREAM relay): the reply still goes back to where the datagram came from
+			rm.AddOption(&dhcpv6.OptionGeneric{OptionCode: 135, OptionData: []byte{byte(r.Intn(2) * 4), byte(r.Intn(2) * 0xd2)}})
+		}
 		rm.AddOption(dhcpv6.OptRelayMessage(outer))
 		outer = rm
 		ls = append([]layer6{l}, ls...) // outermost first
@@ -732,7 +740,8 @@ func feed6(t *Trace, in in6, r *rand.Rand) {
 	}
 	peer := &net.UDPAddr{IP: net.ParseIP(fmt.Sprintf("2001:db8:aa::%x", 1+r.Intn(0xfff))), Port: 546 + r.Intn(2)*1000}
 	if in.src == "linklocal" {
-		peer.IP = net.ParseIP(fmt.Sprintf("fe80::%x", 1+r.Intn(3)))
+		// link-local is fe80::/10, not only fe80::/64
+		peer.IP = net.ParseIP(fmt.Sprintf([]string{"fe80::%x", "fe80::%x", "fe80:0:0:1::%x", "fe9a::%x", "febf:ffff::%x"}[r.Intn(5)], 1+r.Intn(3)))
 	}
 	capt.reset()
 	var pan interface{}
